@@ -9,9 +9,13 @@ import (
 	"github.com/google/uuid"
 	"github.com/jf-tech/go-corelib/caches"
 
+	"github.com/jf-tech/omniparser"
+	"github.com/jf-tech/omniparser/customfuncs"
+	"github.com/jf-tech/omniparser/extensions/omniv21"
 	v21cf "github.com/jf-tech/omniparser/extensions/omniv21/customfuncs"
 	"github.com/jf-tech/omniparser/extensions/omniv21/fileformat/edi"
 	"github.com/jf-tech/omniparser/idr"
+	"github.com/jf-tech/omniparser/transformctx"
 
 	"verif/sim/tape"
 )
@@ -112,5 +116,23 @@ func (e Env) FlushCaches() {
 	if !e.JSCacheOff {
 		v21cf.JSProgramCache = newCache(e.JSProgCap)
 		v21cf.NodeToJSONCache = newCache(e.NodeJSONCap)
+	}
+}
+
+// ProbeExtension is the default 'omni.2.1' extension plus the harness custom function
+// verif_probe(s) = s, which calls the yield function found in Ctx.CustomParam: a scheduler
+// hand-off point in the middle of a record's evaluation, reached through the seam
+// Extension.CustomFuncs.
+func ProbeExtension() omniparser.Extension {
+	return omniparser.Extension{
+		CreateSchemaHandler: omniv21.CreateSchemaHandler,
+		CustomFuncs: customfuncs.Merge(customfuncs.CommonCustomFuncs, v21cf.OmniV21CustomFuncs, customfuncs.CustomFuncs{
+			"verif_probe": func(ctx *transformctx.Ctx, s string) (string, error) {
+				if y, ok := ctx.CustomParam.(func()); ok && y != nil {
+					y()
+				}
+				return s, nil
+			},
+		}),
 	}
 }
